@@ -408,6 +408,12 @@ fn array_ref_to_scalar(array: &ArrayRef, index: usize) -> Result<ScalarValue> {
         return Ok(ScalarValue::Null);
     }
 
+    // A string column gathered by a small-build join is dictionary-encoded: decode the one cell
+    if let arrow::datatypes::DataType::Dictionary(_, value_type) = array.data_type() {
+        let cell = arrow::compute::cast(&array.slice(index, 1), value_type.as_ref())?;
+        return array_ref_to_scalar(&cell, 0);
+    }
+
     Ok(match array.data_type() {
         arrow::datatypes::DataType::Boolean => {
             let arr = array
